@@ -23,7 +23,11 @@
 (* non-zero ones among the Y*k.                                            *)
 (*                                                                         *)
 (* Variant = "code" is the transcription; the other values are the broken  *)
-(* variants of the non-vacuity configurations.                             *)
+(* variants of the non-vacuity configurations: "nofilter" keeps the null   *)
+(* candidates, "finalq" takes the kernel of Q*Y instead of Mx*Y,           *)
+(* "badselect" selects the first rk rows, "threeterm" orthogonalises only  *)
+(* against the last three blocks whatever was selected; "noalternate"      *)
+(* (always the forward rank routine) is used for a reachability question.  *)
 (***************************************************************************)
 EXTENDS Naturals, Sequences, FiniteSets, TLC, Randomization, Gf2
 CONSTANTS NR, NC, W,
@@ -41,6 +45,9 @@ ZeroS == [i \in Bits |-> {}]
 IdS   == [i \in Bits |-> {i}]
 
 Parity(S) == Cardinality(S) % 2 = 1
+
+\* (TLCEval below only forces TLC to evaluate a function constructor once, when it is built, instead
+\* of at every application - a factor of several hundred on this model; it is the identity.)
 
 \* Q = Mx^T Mx by rows (= by columns: symmetric)
 QOf(Mx) == TLCEval([i \in Cols |-> {j \in Cols : Parity(Mx[i] \cap Mx[j])}])
@@ -62,7 +69,6 @@ Symmetric(G) == \A i, j \in Bits : (j \in G[i]) <=> (i \in G[j])
 
 -----------------------------------------------------------------------------
 (* SmallMat::rank, SmallMat::rank_reverse, SmallMat::pseudoinverse *)
-\* (TLCEval only forces TLC to evaluate a function constructor once instead of at every application)
 
 MinOf(S) == CHOOSE x \in S : \A y \in S : x <= y
 \* fn lz = trailing_zeros: position of the lowest set bit, W for the zero lane
